@@ -967,6 +967,16 @@ class FuncAnalysis:
         injective = key is None
         why = "no key (elements compared directly)"
         if key is not None:
+            # a named key function (module-level / nested def with a single `return <expr>`) is read like a lambda;
+            # operator.attrgetter("name") is the same key as lambda x: x.name
+            if isinstance(key, ast.Name):
+                cand = self.sm.funcs.get((self.f.rel, key.id)) or self.sm.funcs.get((self.f.rel, f"{self.f.qualname}.{key.id}"))
+                if cand is not None:
+                    body_ = [st for st in cand.node.body if not (isinstance(st, ast.Expr) and isinstance(st.value, ast.Constant))]
+                    if len(body_) == 1 and isinstance(body_[0], ast.Return) and body_[0].value is not None and len(cand.node.args.args) == 1:
+                        key = ast.Lambda(args=cand.node.args, body=body_[0].value)
+            if isinstance(key, ast.Call) and (dotted(key.func) or "").split(".")[-1] == "attrgetter" and len(key.args) == 1 and isinstance(key.args[0], ast.Constant) and isinstance(key.args[0].value, str) and "." not in key.args[0].value:
+                key = ast.Lambda(args=ast.arguments(posonlyargs=[], args=[ast.arg("x_")], kwonlyargs=[], kw_defaults=[], defaults=[]), body=ast.Attribute(ast.Name("x_", ast.Load()), key.args[0].value, ast.Load()))
             if isinstance(key, ast.Lambda) and len(key.args.args) == 1:
                 p = key.args.args[0].arg
                 body = key.body
